@@ -10,6 +10,7 @@
 #include <sys/mman.h>
 #include <isal_crypto_api.h>
 #include <multi_buffer.h>
+#include <valgrind/memcheck.h>
 
 enum { R_FAM, R_ISAL, R_LEGACY };
 static const char *const route_name[] = { "fam", "isal", "legacy" };
@@ -83,6 +84,7 @@ static void *arena_alloc(hist_t *h, size_t size, size_t align)
 }
 static void junk_fill(hist_t *h, void *p, size_t n, uint64_t salt)
 {
+        if (h->cfg->junk_mode == 3) { (void) VALGRIND_MAKE_MEM_UNDEFINED(p, n); return; }    /* memcheck tracks any use of it */
         if (h->cfg->junk_mode == 0) memset(p, 0x00, n);
         else if (h->cfg->junk_mode == 1) memset(p, 0xff, n);
         else { rng_t j; rng_seed(&j, mix64(h->case_seed ^ 0x6a756e6b, salt)); rng_fill(&j, p, n); }
@@ -597,7 +599,7 @@ int main(int argc, char **argv)
                                 uint64_t *tr[3] = { 0, 0, 0 };
                                 int npat = pair ? 3 : 1;
                                 for (int p = 0; p < npat; p++) {
-                                        T.cfg.junk_mode = pair ? p : 2;
+                                        T.cfg.junk_mode = pair ? p : (arg_int("--uninit", 0) ? 3 : 2);
                                         T.traces = tr[p] = calloc(g_count, 8);
                                         memset(&T.res, 0, sizeof T.res);
                                         thread_main(&T);
